@@ -4,7 +4,7 @@ Property theorems only, over every reachable state of the transition system of D
 (any schedule, any point of consumption: items prefetched, cells lent or in `out_data_`, after the end,
 repeatedly in a row -- the most general client may call BeforeFirst whenever no other call is in progress).
 -/
-import DmlcModel.TIter.Corollaries
+import DmlcModel.TIter.Progress
 
 namespace DmlcModel.Props.C08
 open DmlcModel DmlcModel.TIter DmlcModel.Gen.TIter
@@ -62,9 +62,30 @@ theorem C08_returns_no_deadlock (hn : NoFail P) (hcap : 1 ≤ P.cap) (h : Reacha
     ∃ e : Event, e.isProgress = true ∧ (step P s e).isSome = true :=
   deadlock_free_of_inv hcap (inv_reachable h).a (inv_reachable h).b (invD_reachable_noFail hn h) (Or.inr hx)
 
-/-- full statement of C08_returns (termination of the call); NOT proved beyond deadlock freedom, see C07_progress_statement -/
+/-- statement of C08_returns (termination of the call) -/
 def C08_returns_statement (P : Params) : Prop :=
   NoFail P → 1 ≤ P.cap → ∀ s, Reachable P s → s.xloc ≠ .idle →
     ¬ ∃ f : Nat → State, f 0 = s ∧ ∀ n, ∃ e : Event, e.isProgress = true ∧ step P (f n) e = some (f (n + 1))
+
+theorem C08_returns_finite (P : Params) : C08_returns_statement P :=
+  fun _ _ _ hr _ => no_infinite_progress hr
+
+/-- BeforeFirst returns: started in any contract-allowed state, every execution of it (and of the producer) is
+finite and can only stop with the call returned; with `C08_fresh_pass` it returns only after the rewind ran -/
+theorem C08_returns (hn : NoFail P) (hcap : 1 ≤ P.cap) (h : Reachable P s) :
+    (∀ t, ProgSteps P s t → (∀ e : Event, e.isProgress = true → step P t e = none) → t.xloc = .idle) ∧
+    (∃ t, ProgSteps P s t ∧ t.xloc = .idle) := by
+  have key : ∀ t, Reachable P t → (∀ e : Event, e.isProgress = true → step P t e = none) → t.xloc = .idle := by
+    intro t ht hq
+    cases hx : t.xloc with
+    | idle => rfl
+    | _ =>
+      obtain ⟨e, hp, hs⟩ := C08_returns_no_deadlock hn hcap ht (by simp [hx])
+      rw [hq e hp] at hs
+      cases hs
+  constructor
+  · intro t ht hq; exact key t (progSteps_reachable h ht) hq
+  · obtain ⟨t, ht, hq⟩ := exists_maximal h
+    exact ⟨t, ht, key t (progSteps_reachable h ht) hq⟩
 
 end DmlcModel.Props.C08
